@@ -5,9 +5,13 @@ from .common import *
 JCFG = "CONSTANTS Slots = {1, 2, 3} Items = {1, 2, 3, 100, 101} MaxBins = 12\nINVARIANT ModelConsistent\n"
 
 
-def gen_cfg(slots, items, maxbins, maxops):
-    return ("CONSTANTS Slots = {%s} Items = {%s} MaxBins = %d MaxOps = %d\nINIT GInit\nNEXT GNext\nINVARIANT SumsConsistentV\nINVARIANT DeadSlotsEmpty\nINVARIANT EmitAtEnd\n"
-            % (", ".join(map(str, slots)), ", ".join(map(str, items)), maxbins, maxops))
+ALL_OPS = ("new", "add", "addbad", "copy", "sort", "addempty", "remove", "concat", "combine")
+
+
+def gen_cfg(slots, items, maxbins, maxops, newsizes=(0, 1, 2), ns=(0, 1, 2), ops=ALL_OPS):
+    return ("CONSTANTS Slots = {%s} Items = {%s} MaxBins = %d MaxOps = %d NewSizes = {%s} Ns = {%s} Ops = {%s}\nINIT GInit\nNEXT GNext\nINVARIANT SumsConsistentV\nINVARIANT DeadSlotsEmpty\nINVARIANT EmitAtEnd\n"
+            % (", ".join(map(str, slots)), ", ".join(map(str, items)), maxbins, maxops, ", ".join(map(str, newsizes)), ", ".join(map(str, ns)),
+               ", ".join('"%s"' % o for o in ops)))
 
 
 def ref_cfg(disc, maxops):
@@ -29,9 +33,16 @@ def run(ck):
     if not q:    # depth 5 with a single item value (the number of histories grows 20-fold per operation)
         r = ck.mc("BinnerGen", gen_cfg([1, 2], [1], 2, 5), "GEN all operation histories to depth 5, one item value (exhaustive)")
         hists += [e["ops"] for e in r.emitted]
+    # a NARROW universe enumerated deeper: one array of three bins that is sorted, shrunk / grown by one bin, disturbed by additions and sorted again
+    # (what an implementation that remembers "this array is sorted" - or hands out views of it - can get wrong)
+    r = ck.mc("BinnerGen", gen_cfg([1], [1], 3, 6 if q else 8, newsizes=(3,), ns=(1,), ops=("new", "add", "sort", "remove", "addempty")),
+              "GEN all histories of one three-bin array under add / sort / remove / add-empty to depth %d (exhaustive)" % (6 if q else 8))
+    narrow = [e["ops"] for e in r.emitted]
+    ck.cat("narrow_universe_histories", len(narrow))
+    hists += narrow
     ck.exhaustive = True
     ck.cat("exhaustive_histories", len(hists))
-    r = ck.mc("BinnerGen", gen_cfg([1, 2, 3], [1, 2, 3, 100, 101], 4, 12 if q else 20), "GEN simulated deep walks",
+    r = ck.mc("BinnerGen", gen_cfg([1, 2, 3], [1, 2, 3, 100, 101], 4, 12 if q else 20, newsizes=(0, 1, 2, 3)), "GEN simulated deep walks",
               simulate="num=%d" % (40 if q else 600), depth=14 if q else 22, dedupe_emits=True, workers=8)
     deep = [e["ops"] for e in r.emitted]
     ck.cat("simulated_histories_emitted", len(deep))
@@ -58,9 +69,9 @@ def run(ck):
     ck.sample({"mgr": traces[len(traces) // 2]["mgr"], "ops": [{k: o[k] for k in ("op", "a", "b", "i", "j", "n", "it")} for o in traces[len(traces) // 2]["ops"]]})
     ck.sample({"last_event_with_projection": traces[-1]["ops"][-1]})
     ck.rule = ("TLC enumerates every history of <=%d bins-manager operations (new, add, rejected add (an item the value function does not know: no effect allowed), copy, sort, add-empty, remove, concatenate, combine over 2 slots x 2 items x <=2 bins, "
-               "hand-over discipline built in) and simulates deep walks (3 slots, a zero-valued item and one worth 2^24+1, <=4 bins); each history is replayed on a real BinnerKeepingContents and "
+               "hand-over discipline built in) every history of <=%d operations of one three-bin array under add / sort / remove / add-empty, and simulates deep walks (3 slots, a zero-valued item and one worth 2^24+1, <=4 bins); each history is replayed on a real BinnerKeepingContents and "
                "BinnerKeepingSums, recording the projected state of every live array after every operation and the old handles of handed-over arguments (including the raw length of their list component); TLC steps the "
-               "value model through every event. non-trivial = distinct (manager, history) with >=2 operations") % (4 if q else 5)
+               "value model through every event. non-trivial = distinct (manager, history) with >=2 operations") % (4 if q else 5, 6 if q else 8)
     fails = ck.judge("JBinner", traces, {"C16"}, what="C16 histories stepped through BinnerVal", chunk=8000, extra_consts=JCFG,
                      count_events=lambda t: len(t["ops"]))
     ck.classify(fails, lambda fl: {"alg": fl["trace"]["mgr"], "at": fl["e"], "ops": [{k: o[k] for k in ("op", "a", "b", "i", "j", "n", "it")} for o in fl["trace"]["ops"][:fl["e"]]],
